@@ -554,6 +554,35 @@ def _open(mm, res):
   return iter(mm.control_group_generator(set(res['t'])))
 
 
+class _RaisesAtFirstStep:
+  """Stands in for a listing whose creation already raised: an implementation
+  may validate its argument eagerly instead of at the first next()."""
+
+  def __init__(self, exc):
+    self._exc = exc
+
+  def __iter__(self):
+    return self
+
+  def __next__(self):
+    exc, self._exc = self._exc, None
+    if exc is None:
+      raise StopIteration
+    raise exc
+
+  def close(self):
+    self._exc = None
+
+
+def _open_lenient(mm, res):
+  try:
+    return _open(mm, res)
+  except Exception as e:  # pylint: disable=broad-except
+    if isinstance(e, faults.Injected):
+      raise
+    return _RaisesAtFirstStep(e)
+
+
 def _close(gen):
   close = getattr(gen, 'close', None)
   if close is not None:
@@ -654,7 +683,7 @@ def execute(desc):
         mm_f = env.build_reference()[0]
         out = []
         try:
-          for g in _open(mm_f, res):
+          for g in _open_lenient(mm_f, res):
             out.append(core.canon(set(g)))
           return out, 'stop'
         except Exception as e:  # pylint: disable=broad-except
@@ -915,7 +944,7 @@ def execute(desc):
                                              lid='r%d' % step)
         res = resolve(src)
         key = json.dumps(res, sort_keys=True)
-        gen = _open(mm, res)       # generator functions never raise here
+        gen = _open_lenient(mm, res)
         listings[src['lid']] = {'gen': gen, 'key': key, 'res': res, 'pos': 0,
                                 'rejecting': kind == 'reject'}
         state_change = True
